@@ -57,6 +57,33 @@ fn smh2_u32_nohash(m: usize, items: &[u64]) -> Result<Vec<Vec<u64>>, String> {
     })
 }
 
+/// the same sketchers, but the instance is first used for another item and reinitialised (sketchers are meant to be reused)
+fn smh_f_reused<F: num::Float + rand_distr::uniform::SampleUniform + std::fmt::Debug, H: Hasher + Default>(m: usize, items: &[u64]) -> Result<Vec<Vec<u64>>, String> {
+    let items = items.to_vec();
+    guarded_mut(move || {
+        let mut s = SuperMinHash::<F, u64, H>::new(m, BuildHasherDefault::<H>::default());
+        s.sketch(&0xDEAD_BEEF_u64).unwrap();
+        s.reinit();
+        for x in &items {
+            s.sketch(x).unwrap();
+        }
+        vec![s.get_hsketch().iter().map(|f| f.to_f64().unwrap().to_bits()).collect()]
+    })
+}
+
+fn smh2_u64_reused<H: Hasher + Default>(m: usize, items: &[u64]) -> Result<Vec<Vec<u64>>, String> {
+    let items = items.to_vec();
+    guarded_mut(move || {
+        let mut s = SuperMinHash2::<u64, u64, H>::new(m, BuildHasherDefault::<H>::default());
+        s.sketch_slice(&[0xDEAD_BEEF_u64, 77, 78]).unwrap();
+        s.reinit();
+        for x in &items {
+            s.sketch(x).unwrap();
+        }
+        vec![s.get_hsketch().clone()]
+    })
+}
+
 pub struct Variant {
     pub name: &'static str,
     pub f: fn(usize, &[u64]) -> Result<Vec<Vec<u64>>, String>,
@@ -71,6 +98,8 @@ pub fn variants() -> Vec<Variant> {
         Variant { name: "SuperMinHash2<u64,NoHash>", f: smh2_u64::<NoHashHasher> },
         Variant { name: "SuperMinHash2<u32,XxHash32>", f: smh2_u32_xx },
         Variant { name: "SuperMinHash2<u32,NoHash>", f: smh2_u32_nohash },
+        Variant { name: "SuperMinHash<f64,Fnv> reused after reinit", f: smh_f_reused::<f64, FnvHasher> },
+        Variant { name: "SuperMinHash2<u64,Fnv> reused after reinit", f: smh2_u64_reused::<FnvHasher> },
     ]
 }
 
@@ -103,14 +132,18 @@ pub fn identity_sweep(
     totals: &mut (u64, u64, u64),
 ) {
     for var in vars {
+        let mut variant_reported = false;
         for &m in ms {
+            if variant_reported {
+                break; // one replayable counterexample per variant is enough; arbitration runs are expensive
+            }
             let f = var.f;
             let sk = move |items: &[u64]| f(m, items);
             let skr: &ViewsFn = &sk;
             let mut cfg_triples = 0u64;
             let mut cfg_ok = true;
             for (ca, cb, cab) in shapes(umax) {
-                if ca + cb + cab > block.len() {
+                if ca + cb + cab > block.len() || variant_reported {
                     continue;
                 }
                 let o = check_identity(skr, block, ca, cb, cab);
@@ -134,6 +167,7 @@ pub fn identity_sweep(
                             let se = p.se.max(1e-9);
                             let z = (p.mean - p.j) / se;
                             if z.abs() > 6. || (p.j == 0. || p.j == 1.) && (p.mean - p.j).abs() > 1e-12 {
+                                variant_reported = true;
                                 ctx.violation(
                                     &format!("{}-biased:{}", prop_tag, var.name),
                                     &format!(
@@ -398,7 +432,7 @@ pub fn run(ctx: &Ctx) -> i32 {
         "exhaustive_scope": "part (1) enumerates every labelling of every shape by the block (exact integer identity); parts (2),(3) enumerate finite blocks of the identifier space with a 6-sigma / confirm rule",
         "evaluations": totals.0 + evals,
         "distinct_nontrivial": totals.1,
-        "rule": "(1) for 7 sketcher variants (f32/f64 SuperMinHash, u32/u64 SuperMinHash2; Fnv, XxHash32 and no-op hashers), m in {1,2,3,5,8,16,33}, every shape (|A\\B|,|B\\A|,|A∩B|) with union <=4 (5) and EVERY assignment of block identifiers (10 (13) ids, two blocks) to it: per position, collisions * u == triples * |A∩B| exactly (a broken identity is arbitrated on 2e5 fresh labellings before being reported); distinct = distinct subsets sketched; (2) 8 large / lopsided shapes x 7 variants on T disjoint labellings: |mean-J| <= 6 se and MSE <= J(1-J)/m + 6 se; (3) single-item sketches of 2^16 (2^19) items: integer parts a permutation (exact), orders equally frequent (chi2), fractions uniform (KS) and uncorrelated",
+        "rule": "(1) for 9 sketcher variants (f32/f64 SuperMinHash, u32/u64 SuperMinHash2; Fnv, XxHash32 and no-op hashers; fresh instances and instances reused after reinit), m in {1,2,3,5,8,16,33}, every shape (|A\\B|,|B\\A|,|A∩B|) with union <=4 (5) and EVERY assignment of block identifiers (10 (13) ids, two blocks) to it: per position, collisions * u == triples * |A∩B| exactly (a broken identity is arbitrated on 2e5 fresh labellings before being reported); distinct = distinct subsets sketched; (2) 8 large / lopsided shapes x 7 variants on T disjoint labellings: |mean-J| <= 6 se and MSE <= J(1-J)/m + 6 se; (3) single-item sketches of 2^16 (2^19) items: integer parts a permutation (exact), orders equally frequent (chi2), fractions uniform (KS) and uncorrelated",
         "identity": idetails,
         "identity_subset_triples": totals.0,
         "identity_comparisons": totals.2,
